@@ -196,3 +196,14 @@ Definition unmarshal_int (signed : bool) (bits : N) (data : list N) : ures :=
           else URes true None
       end
   end.
+
+(* Decoder.Decode (stream mode, int.go / uint.go DecodeStream): the same scan, but a fraction or an exponent behind
+   the digits is refused before anything is stored (Stream.numberGoesOn) *)
+Definition float_tail (rest : list N) : bool :=
+  match rest with c :: _ => (c =? 46) || (c =? 101) || (c =? 69) | [] => false end.
+
+Definition unmarshal_int_stream (signed : bool) (bits : N) (data : list N) : ures :=
+  match int_decode_byte signed (data ++ [0]) with
+  | SNum _ rest => if float_tail rest then URes true None else unmarshal_int signed bits data
+  | _ => unmarshal_int signed bits data
+  end.
